@@ -18,6 +18,11 @@ T0 = pd.Timestamp('2020-03-02 15:00:00', tz='UTC')
 
 
 def alphabet(tier):
+    if tier == 'refusals':
+        evs = [('fill', q, p_, c) for q in (2, -2, 5, -5) for p_ in ('10', '12.5') for c in ('0', '1.25')]
+        evs += [('refused', 3, '11', '0.75', 'stale'), ('refused', -3, '11', '0.75', 'stale'),
+                ('refused', 3, '0', '0.75', 'price'), ('refused', -3, '-1', '0.75', 'price')]
+        return evs + [('mark', '11')]
     if tier == 'rebate':
         # negative commissions (liquidity rebates) are commissions too
         evs = [('fill', q, p_, c) for q in (2, -2, 5, -5) for p_ in ('10', '12.5') for c in ('-0.4', '0.3')]
@@ -127,6 +132,20 @@ def apply_position(pos, ref, ev, i):
     from qstrader.broker.transaction.transaction import Transaction
     fails = []
     dt = T0 + pd.Timedelta(minutes=i)
+    if ev[0] == 'refused':
+        # a fill the position refuses (stale timestamp or non-positive price): nothing may stick to the books
+        if pos is None:
+            return None, ref, fails
+        pos = copy.copy(pos)
+        q, p, c, why = ev[1], ev[2], ev[3], ev[4]
+        bad_dt = pos.current_dt - pd.Timedelta(minutes=1) if why == 'stale' else dt
+        txn = Transaction('A', q, bad_dt, float(p), 'r%d' % i, commission=float(c))
+        try:
+            pos.transact(txn)
+            fails.append({'clause': 'C03.refused_fill_accepted', 'detail': {'event': list(ev)}})
+        except ValueError:
+            pass
+        return pos, ref.copy(), fails
     if ev[0] == 'fill':
         q, p, c = ev[1], ev[2], ev[3]
         txn = Transaction('A', q, dt, float(p), 'x%d' % i, commission=float(c))
@@ -369,6 +388,11 @@ def run(tier, res, is_known):
     levs = alphabet('large')
     litems = [('large', (), 0)] + [('large', (pre,), 2 if tier == 'quick' else 3) for pre in levs]
     product(subtree_position, litems, res, is_known, label='position tree, large magnitudes', chunk=1, sample_every=7)
+    if any(not is_known(v) for v in res.violations):
+        return
+    fevs = alphabet('refusals')
+    fitems = [('refusals', (), 0)] + [('refusals', (pre,), 3) for pre in fevs]
+    product(subtree_position, fitems, res, is_known, label='position tree with refused fills', chunk=1, sample_every=7)
     if any(not is_known(v) for v in res.violations):
         return
     revs = alphabet('rebate')
